@@ -56,7 +56,7 @@ summary = {'label': 'bounded', 'function': 'db.executeMerge -> (*mergeProcessor)
 
 if prop in ('C01', 'C02', 'C04'):
     env = {'VERIF_BOUND_K': '2', 'VERIF_BOUND_L': '2'}
-    bound = '2 replicas, all histories of length <= 2 over {name=x|y|null, counter increment, delete, sync a>b} per replica, then two rounds of full exchange'
+    bound = '2 replicas, all histories of length <= 2 over {name=x|y|null, counter increment, delete, sync a>b} per replica, plus the directed families fork-join (r0.a; r1.b; sync r1>r0; r0.c) and late-join (r0.a; r0.b; r1.c; sync r1>r0) for all a,b,c; each followed by two rounds of full exchange and a redelivery of every composite commit (oldest first and newest first) that must change nothing'
     if tier == 'thorough':
         env = {'VERIF_BOUND_K': '2', 'VERIF_BOUND_L': '3', 'VERIF_BOUND_RANDOM': '150', 'VERIF_BOUND_RK': '3', 'VERIF_BOUND_RLEN': '8', 'VERIF_SEED': str(seed)}
         bound = '2 replicas, all histories of length <= 3; plus 150 seeded random histories of length 8 on 3 replicas'
